@@ -99,6 +99,8 @@ type Exec struct {
 	raceSeen    map[string]bool
 	shadow      map[uintptr]*shadowCell
 	policy      int
+	LogYield    bool
+	VarYield    bool
 	ClockContended bool // vtime.Now is a scheduling point
 	NoHB        bool
 	MaxPoints   int
@@ -188,6 +190,8 @@ type Options struct {
 	Trace          bool
 	Horizon        time.Duration // virtual time budget (0 = 24h)
 	ClockContended bool
+	LogYield       bool // every log record of the code under test is a scheduling point
+	VarYield       bool // every access to a closure-shared local variable is a scheduling point
 	Policy         int // default scheduler: 0 = lowest-numbered enabled thread first, 1 = highest-numbered first
 	MaxPoints      int // safety cap on scheduling points (0 = 200000)
 	NoHB           bool
@@ -213,6 +217,8 @@ func Run(opt Options, body func()) *Exec {
 		exited:   make(chan struct{}),
 		ClockContended: opt.ClockContended,
 		policy: opt.Policy,
+		LogYield: opt.LogYield,
+		VarYield: opt.VarYield,
 		MaxPoints: opt.MaxPoints,
 		NoHB: opt.NoHB,
 	}
